@@ -435,3 +435,54 @@ func VP_C09_ForwardFaultyPrimary() {
 	}
 	vp.Settle()
 }
+
+// ---------------------------------------------------------------- C09-H3b: a witness that is behind the primary
+
+type vpLagging struct {
+	first, second *types.LightBlock // its latest block when asked the first / the second time
+	n             int
+}
+
+func (w *vpLagging) ChainID() string { return vpChain }
+func (w *vpLagging) ReportEvidence(ctx context.Context, ev types.Evidence) error { return nil }
+func (w *vpLagging) LightBlock(ctx context.Context, height int64) (*types.LightBlock, error) {
+	if height != 0 {
+		return nil, provider.ErrHeightTooHigh
+	}
+	w.n++
+	if w.n == 1 {
+		return w.first, nil
+	}
+	return w.second, nil
+}
+
+// The witness does not have the primary's height yet.  Block time grows strictly with height, so a
+// witness block *below* that height whose time is not before the primary header's time proves the
+// primary's header cannot be on the witness's chain: that must be reported as a conflict, at the first
+// look or after the wait; otherwise the witness is merely too far behind.
+func VP_C09_LaggingWitness() {
+	base := int64(1700000000)
+	vals := types.NewValidatorSet(vpValSet([]int{0, 1, 2}, 10).Validators)
+	all, idx := []bool{true, true, true}, []int{0, 1, 2}
+	mk := func(h int64, t time.Time) *types.LightBlock {
+		hd := vpHeader(vpChain, h, t, vals, vals)
+		return &types.LightBlock{SignedHeader: &types.SignedHeader{Header: hd, Commit: vpCommit(vpChain, hd, vals, idx, all)}, ValidatorSet: vals}
+	}
+	target := mk(5, time.Unix(base+50, 0).UTC())
+	d1, d2 := vp.Int64("first-latest-time-offset"), vp.Int64("second-latest-time-offset")
+	vp.Assume(vp.And(d1 >= -3, d1 <= 3, d2 >= d1, d2 <= 3))
+	w := &vpLagging{first: mk(3, time.Unix(base+50+d1, 0).UTC()), second: mk(4, time.Unix(base+50+d2, 0).UTC())}
+	c := &Client{chainID: vpChain, trustingPeriod: time.Hour, trustLevel: DefaultTrustLevel, maxClockDrift: time.Second, maxBlockLag: time.Second,
+		logger: log.NewNopLogger(), confirmationFn: func(string) bool { return true }, quit: make(chan struct{})}
+	errc := make(chan error, 1)
+	c.compareNewHeaderWithWitness(context.Background(), errc, target.SignedHeader, w, 0)
+	err := <-errc
+	_, conflict := err.(errConflictingHeaders)
+	vp.Assert(conflict == (d1 >= 0 || d2 >= 0), "C09.detector.lower-witness-block-with-a-time-not-before-the-primary's-is-a-conflict")
+	if !conflict {
+		vp.Reach("too-far-behind")
+		vp.Assert(err == provider.ErrNoResponse, "C09.detector.a-witness-merely-behind-is-no-confirmation")
+	} else {
+		vp.Reach("conflict")
+	}
+}
